@@ -287,8 +287,11 @@ class ServePatch(RequestHandlerBase):
             logging.warning('stream.timing_reference has not been configured')
             return flask.make_response(
                 'stream.timing_reference has not been configured', 404)
-        original_publish_time = datetime.datetime.fromtimestamp(
-            publish, tz=UTC())
+        try:
+            original_publish_time = datetime.datetime.fromtimestamp(
+                publish, tz=UTC())
+        except (ValueError, OverflowError, OSError):
+            return flask.make_response('Invalid publish time', 404)
         dash = ManifestContext(
             manifest=mft, options=options, stream=current_stream,
             multi_period=None)
